@@ -58,7 +58,20 @@ os.makedirs(dst, exist_ok=True)
 for f in ("patch.diff", "demo.py", "notes.md"):
     if os.path.exists(os.path.join(md, f)):
         shutil.copy(os.path.join(md, f), dst)
-meta = {"property": a.pid, "name": a.name, "needs_to_manifest": "see notes.md", "confirmed": {k: res.get(k) for k in ("demo_clean_exit", "demo_mutant_exit", "suite_unchanged", "suite_failed")},
+old = {}
+if os.path.exists(os.path.join(dst, "meta.json")):
+    try:
+        old = json.load(open(os.path.join(dst, "meta.json")))
+    except Exception:
+        old = {}
+if a.skip_suite and old.get("confirmed", {}).get("suite_unchanged") is not None:
+    res["suite_unchanged"] = old["confirmed"]["suite_unchanged"]
+    res["suite_failed"] = old["confirmed"].get("suite_failed")
+hist = old.get("history", [])
+if old.get("results"):
+    hist.append({"at_verif_commit": old.get("verif_commit"), "results": old["results"], "caught_by": old.get("caught_by")})
+vc = subprocess.run("git -C /verif rev-parse --short HEAD", shell=True, capture_output=True, text=True).stdout.strip()
+meta = {"verif_commit": vc, "history": hist, "property": a.pid, "name": a.name, "needs_to_manifest": "see notes.md", "confirmed": {k: res.get(k) for k in ("demo_clean_exit", "demo_mutant_exit", "suite_unchanged", "suite_failed")},
         "ran": [f"./check {c} --no-evidence (with patch applied to /repo, then reverted)" for c in checks], "results": res["checks"], "caught_by": res["caught_by"]}
 json.dump(meta, open(os.path.join(dst, "meta.json"), "w"), indent=1)
 print(json.dumps(res, indent=1))
